@@ -12,7 +12,7 @@ import yaml
 from lxml import etree as ET
 
 from ..parser_utils import ParserException
-from ..xmlparser import XML_HEADER
+from ..xmlparser import XML_HEADER, to_csv
 
 from ...format import Document, Section, Property
 from ...info import FORMAT_VERSION
@@ -280,7 +280,7 @@ class VersionConverter(object):
         """
         for prop in root.iter("property"):
             main_val = ET.Element("value")
-            multiple_values = False
+            value_texts = []
             parent = prop.getparent()
 
             # If a Property has no name attribute, remove it from its parent and
@@ -304,21 +304,16 @@ class VersionConverter(object):
                 # Move supported elements from Value to parent Property.
                 self._handle_value(value, prop_id)
 
-                if value.text:
-                    if main_val.text:
-                        main_val.text += "," + value.text.strip()
-                        multiple_values = True
-                    else:
-                        main_val.text = value.text.strip()
+                if value.text and value.text.strip():
+                    value_texts.append(value.text.strip())
 
                 prop.remove(value)
 
-            # Append value element only if it contains an actual value
-            if main_val.text:
-                # Multiple values require brackets
-                if multiple_values:
-                    main_val.text = "[" + main_val.text + "]"
-
+            # Append value element only if it contains an actual value. Use the
+            # v1.1 XML writer's value format, which quotes values that contain
+            # commas, quotes, line breaks or enclosing brackets.
+            if value_texts:
+                main_val.text = to_csv(value_texts)
                 prop.append(main_val)
 
             # Reverse map "dependency_value", exclude unsupported Property attributes.
